@@ -313,7 +313,7 @@ fn needs_pct(s: Option<&str>) -> bool {
     s.map_or(false, |s| s.contains('%'))
 }
 
-fn main() {
+pub fn main() {
     let mut ck = Check::new("C33", "exploration");
     ck.rule("URL strings assembled from parts: URL form (schemes ssh/git/http(s)/ssh+git/git+ssh/unknown/mixed case/invalid; userinfo absent, user, user:password, :password, user:, empty; user/password tokens from plain, percent-encoded (%40 %3A %2F %25 %20 %00 invalid %zz) and reserved characters, leading '-'; hosts: names, upper case/IDN, IPv4 forms, bracketed IPv6, odd ('-opt', percent-encoded, empty), random; ports absent/empty/0/22/default-like/65535/65536/leading zeros/invalid; paths empty, '/', 1..4 segments from a list with spaces, %20, unicode, '~user', '..', ':' , '?query', '#fragment', backslash, shell metacharacters, '://', double slash, trailing slash), scp-like form ([user@]host:path), local paths (absolute, relative, ./ ../ ~/ ~user/, ':' after a '/', Windows-like, non-UTF-8 bytes), file URLs (with/without host, userinfo, port, drive letters, 'file:' and 'file:/' prefixes), optional byte mutations (whitespace, delimiters, reserved and control/high bytes inserted or substituted), plus a class of >1 KiB user/host components. Only strings that gix_url::parse accepts are evaluated (others are discarded). Non-trivial: user or password contains a percent-encoding, or the URL is scp-like or a local path (alternative serialization form). Distinct by the input string.");
     ck.assume("equality is gix_url::Url's derived PartialEq (all fields including serialize_alternative_form)");
